@@ -23,6 +23,8 @@ inductive Val where
   | int (i : Int)
   | bool (b : Bool)
   | str (s : String)
+  /-- exact number produced by arithmetic (`1.0 * x / y`, `sum(x) / 2.0`); engines compute these in floating point -/
+  | rat (q : Rat)
 deriving DecidableEq, Repr, Inhabited
 
 abbrev Row := List Val
@@ -39,7 +41,36 @@ def Val.lt : Val → Val → Bool
   | .int a, .int b => a < b
   | .str a, .str b => a < b
   | .bool a, .bool b => !a && b
+  | .rat a, .rat b => a < b
   | _, _ => false
+
+/-- Numeric value of an integer or exact number. -/
+def Val.toRat? : Val → Option Rat
+  | .int i => some (i : Rat)
+  | .rat q => some q
+  | _ => none
+
+inductive Arith where
+  | add | sub | mul | div
+deriving DecidableEq, Repr
+
+/-- SQL arithmetic: NULL if an operand is NULL; integers stay integers under `+ - *`; `/` is exact division of the
+numeric values (the translator admits `/` only where an operand is a non-integer number, so that no dialect divides
+integers); division by zero is NULL. -/
+def Arith.eval (op : Arith) (a b : Val) : Val :=
+  match op, a, b with
+  | .add, .int x, .int y => .int (x + y)
+  | .sub, .int x, .int y => .int (x - y)
+  | .mul, .int x, .int y => .int (x * y)
+  | op, a, b =>
+    match a.toRat?, b.toRat? with
+    | some x, some y =>
+      match op with
+      | .add => .rat (x + y)
+      | .sub => .rat (x - y)
+      | .mul => .rat (x * y)
+      | .div => if y = 0 then .null else .rat (x / y)
+    | _, _ => .null
 
 /-- SQL comparison: NULL if an operand is NULL. -/
 def Cmp.eval (c : Cmp) (a b : Val) : Val :=
@@ -80,6 +111,11 @@ inductive Expr where
   | not (a : Expr)
   | isNull (a : Expr)
   | coalesce (a b : Expr)
+  | arith (op : Arith) (a b : Expr)
+  /-- `CASE WHEN c THEN t ELSE e END` (several WHEN branches nest in `e`) -/
+  | case (c t e : Expr)
+  /-- `cast(a as float)` / `1.0 * a`: the exact number of an integer -/
+  | toRat (a : Expr)
 deriving Repr, Inhabited
 
 def Expr.eval (row : Row) : Expr → Val
@@ -93,6 +129,11 @@ def Expr.eval (row : Row) : Expr → Val
   | .coalesce a b => match a.eval row with
     | .null => b.eval row
     | v => v
+  | .arith op a b => op.eval (a.eval row) (b.eval row)
+  | .case c t e => if c.eval row == .bool true then t.eval row else e.eval row
+  | .toRat a => match a.eval row with
+    | .int i => .rat (i : Rat)
+    | v => v
 
 /-- `WHERE` / `ON` keep a row iff the predicate is TRUE. -/
 def Expr.holds (e : Expr) (row : Row) : Bool := e.eval row == .bool true
@@ -102,6 +143,9 @@ inductive Agg where
   | max (e : Expr)
   | countStar
   | count (e : Expr)
+  | sum (e : Expr)
+  /-- `COUNT(*) FILTER (WHERE c)` -/
+  | countIf (c : Expr)
 deriving Repr, Inhabited
 
 /-- `min` of the non-NULL values; NULL for none. -/
@@ -121,11 +165,22 @@ def maxVals : List Val → Val
     | v, .null => v
     | v, m => if Val.lt v m then m else v
 
+/-- `sum` of the non-NULL values; NULL for none. -/
+def sumVals : List Val → Val
+  | [] => .null
+  | v :: vs =>
+    match v, sumVals vs with
+    | .null, s => s
+    | v, .null => v
+    | v, s => Arith.add.eval v s
+
 def Agg.eval (rows : List Row) : Agg → Val
   | .min e => minVals (rows.map e.eval)
   | .max e => maxVals (rows.map e.eval)
   | .countStar => .int rows.length
   | .count e => .int ((rows.filter fun r => e.eval r != .null).length)
+  | .sum e => sumVals (rows.map e.eval)
+  | .countIf c => .int ((rows.filter c.holds).length)
 
 /-- `x IN (v₁, …)` with SQL's NULL semantics. -/
 def inVals (x : Val) (vs : List Val) : Val :=
@@ -149,6 +204,11 @@ inductive Rel where
   | groupBy (keys : List Expr) (aggs : List Agg) (r : Rel)
   /-- `… FROM r WHERE e [NOT] IN (SELECT first column FROM sub)` -/
   | whereIn (neg : Bool) (e : Expr) (sub : Rel) (r : Rel)
+  /-- `SELECT *, agg OVER (PARTITION BY part…) FROM r`: one more column, the aggregate over the rows of the same partition -/
+  | window (part : List Expr) (agg : Agg) (r : Rel)
+  /-- `SELECT *, agg OVER (ORDER BY key [DESC]) FROM r` with the default frame (RANGE … CURRENT ROW: peers included):
+  the aggregate over the rows whose key is `≤` (`≥` when `desc`) this row's key -/
+  | windowCum (key : Expr) (desc : Bool) (agg : Agg) (r : Rel)
 deriving Repr, Inhabited
 
 def Rel.eval (db : Db) : Rel → List Row
@@ -174,6 +234,17 @@ def Rel.eval (db : Db) : Rel → List Row
     (r.eval db).filter fun row =>
       let v := inVals (e.eval row) vs
       (if neg then not3 v else v) == .bool true
+  | .window part agg r =>
+    let rows := r.eval db
+    let keyOf := fun (row : Row) => part.map (·.eval row)
+    rows.map fun row => row ++ [agg.eval (rows.filter fun x => keyOf x == keyOf row)]
+  | .windowCum key desc agg r =>
+    let rows := r.eval db
+    rows.map fun row =>
+      let k := key.eval row
+      row ++ [agg.eval (rows.filter fun x =>
+        let kx := key.eval x
+        (if desc then Cmp.ge.eval kx k else Cmp.le.eval kx k) == .bool true)]
 
 /-- One CTE / pipeline step: `name AS (rel)`. -/
 structure Stmt where
